@@ -40,7 +40,7 @@ def rebin(a, newshape):
     # choose the biggest smaller integer index, floor(i * old / new), in integer
     # arithmetic: a grid built with a float step (numpy.mgrid) has one point too
     # many for some sizes, e.g. 50 points for 49 steps of 1/49
-    indices = [(np.arange(new) * old) // new
+    indices = [(np.arange(int(new)) * old) // int(new)
                for old, new in zip(a.shape, newshape)]
     return a[np.ix_(*indices)]
 
